@@ -121,6 +121,7 @@ func (c *Conversation) End() (toSend []ValidMessage, err error) {
 		c.resend.clear()
 	}
 	c.lastMessageStateChange = time.Time{}
+	c.ake.wipe(true)
 	c.ake = nil
 	c.msgState = plainText
 	defer c.signalSecurityEventIf(previousMsgState == encrypted, GoneInsecure)
